@@ -169,14 +169,16 @@ theorem user_error_over_the_wire (c : CallIn) (k : Bool) (n : Bytes) (p : JVal) 
     error carrying the name the service put in -/
 theorem std_error_over_the_wire (e : StdErr) (hpay : e.params.wf = true) :
     receiveFrame (render (replyObj { params := some e.params, continues := false, error := e.name })) = .stdError e := by
-  have hname : utf8Ok e.name = true := by cases e <;> decide
-  have hne : e.name ≠ [] := by cases e <;> decide
+  have hname : utf8Ok e.name = true := by cases e <;> (simp only [StdErr.name]; decide)
+  have hne : e.name ≠ [] := by cases e <;> (simp only [StdErr.name]; decide)
   have hnull : e.params ≠ .null := by cases e <;> simp [StdErr.params, strObj]
   have hd : e.params.depth < maxDepth := by cases e <;> simp [StdErr.params, strObj, JVal.depth, JMembers.depth, maxDepth]
   rw [Varlink.C03.error_roundtrip e.name e.params hname hne hpay hnull hd]
   exact std_errors_typed e
 
 /-! ### Non-vacuity -/
+example : utf8Ok (str "org.example.Err") = true ∧ (JVal.obj (.cons (str "code") (.num (str "42")) .nil)).wf = true := by decide
+
 example : WellFormedErrorName (str "org.example.Err") :=
   ⟨str "org.example", str "Err", by decide, by decide, by decide, by decide⟩
 example : ¬ WellFormedErrorName (str "org.varlink.service.Err") := by
